@@ -110,6 +110,10 @@ func runHistory(sp spec, tmp string) (res *result, err error) {
 		h.directedNearMissAddress()
 	case "d-stale-first-epoch":
 		h.directedStaleFirstEpoch()
+	case "d-redelivery":
+		h.directedRedelivery()
+	case "d-boundary-shift":
+		h.directedBoundaryShift()
 	case "d-duplicate-member-address":
 		h.directedDuplicateMemberAddress()
 	case "gen":
@@ -541,6 +545,65 @@ func (h *hist) directedDuplicateMemberAddress() {
 	h.packet(2, prop, "proposal", "leader")
 }
 
+// a refused packet leaves no trace: the leader proposes, aborts and re-proposes at once; at a follower
+// the new Proposal overtakes the Abort (refused: Proposed -> Proposed is illegal), the Abort arrives,
+// and the SAME new Proposal is delivered again (sender's retry / re-gossip): it must be applied now.
+func (h *hist) directedRedelivery() {
+	h.fabricate([]int{0, 1, 2}, 2, uint32(1+h.rng.Intn(3)))
+	s := reshareSpec{leader: 0, remaining: []int{0, 1, 2}, joining: []int{3}, thr: 3}
+	_, p1 := h.command(0, h.reshareCmd(s, ""), "cmd-reshare", "leader", false)
+	for _, i := range []int{1, 2, 3} {
+		h.packet(i, p1, "proposal", "leader")
+	}
+	_, ab := h.command(0, simpleCmd("abort"), "cmd-abort", "leader", false)
+	_, p2 := h.command(0, h.reshareCmd(s, ""), "cmd-reshare (again, at once)", "leader", false)
+	for _, i := range []int{1, 2, 3} {
+		h.packet(i, p2, "proposal 2 overtakes the abort", "leader")
+		h.packet(i, ab, "abort", "leader")
+		h.packet(i, p2, "redelivery: proposal 2 again", "leader")
+	}
+	// the same with an acceptance that arrives before the proposal it answers
+	_, acc := h.command(1, simpleCmd("accept"), "cmd-accept", "member", false)
+	_, ab2 := h.command(0, simpleCmd("abort"), "cmd-abort", "leader", false)
+	_, p3 := h.command(0, h.reshareCmd(s, ""), "cmd-reshare", "leader", false)
+	_ = acc
+	h.packet(2, ab2, "abort", "leader")
+	_, acc3 := func() (*stepRec, *pdkg.GossipPacket) {
+		h.packet(1, ab2, "abort", "leader")
+		h.packet(1, p3, "proposal 3", "leader")
+		return h.command(1, simpleCmd("accept"), "cmd-accept", "member", false)
+	}()
+	h.packet(2, acc3, "acceptance overtakes proposal 3", "member")
+	h.packet(2, p3, "proposal 3", "leader")
+	h.packet(2, acc3, "redelivery: acceptance again", "member")
+}
+
+// the boundary between the participant lists is part of the signed terms: the leader's genuinely
+// signed proposal with the last remainer moved to the front of Leaving, or the first leaver moved to
+// the end of Remaining (and likewise Joining/Remaining), signature kept, must be refused.
+func (h *hist) directedBoundaryShift() {
+	h.fabricate([]int{0, 1, 2, 3}, 3, uint32(1+h.rng.Intn(3)))
+	shifts := []string{"t-shift-remaining-to-leaving", "t-shift-leaving-to-remaining", "t-shift-joining-to-remaining", "t-shift-remaining-to-joining"}
+	run := func(s reshareSpec, target int) {
+		_, prop := h.command(0, h.reshareCmd(s, ""), "cmd-reshare", "leader", false)
+		if prop == nil {
+			return
+		}
+		for _, m := range shifts {
+			if q := h.applyMutation(prop, m); !proto.Equal(prop, q) {
+				h.packet(target, q, "proposal:mutated:"+m, "leader")
+			}
+		}
+		h.packet(target, prop, "proposal", "leader")
+		_, ab := h.command(0, simpleCmd("abort"), "cmd-abort", "leader", false)
+		h.packet(target, ab, "abort", "leader")
+	}
+	// all four remain, one joins: shifting the last remainer into Leaving keeps every other rule satisfied
+	run(reshareSpec{leader: 0, remaining: []int{0, 1, 2, 3}, joining: []int{4}, thr: 3}, 1)
+	// three remain, one leaves, one joins: shifting the leaver into Remaining keeps every other rule satisfied
+	run(reshareSpec{leader: 0, remaining: []int{0, 1, 2}, leaving: []int{3}, joining: []int{4}, thr: 3}, 2)
+}
+
 // swapKey returns the genuinely signed proposal with the KEY of the k-th joiner replaced by the
 // attacker's (address, self-signature and the leader's packet signature untouched).
 func (h *hist) swapKey(p *pdkg.GossipPacket, k int) *pdkg.GossipPacket {
@@ -775,7 +838,7 @@ func Run(name, prop string) func(outDir string, seed int64, tier string) error {
 				specs = append(specs, spec{id: len(specs), kind: kind, seed: rng.Int63()})
 			}
 		}
-		for _, wk := range []string{"w-fresh-epoch", "w-left-panic", "w-key-subst", "w-nonleader-exec", "w-nil-leader", "w-unsigned-key", "w-member-epoch", "d-exec-setup", "d-shadow-joiner", "d-below-old-thr", "d-joiner-key-swap", "d-joiner-key-swap", "d-timeout-abandon", "d-concurrent", "d-concurrent", "d-concurrent", "d-near-miss-address", "d-stale-first-epoch", "d-stale-first-epoch", "d-duplicate-member-address"} {
+		for _, wk := range []string{"w-fresh-epoch", "w-left-panic", "w-key-subst", "w-nonleader-exec", "w-nil-leader", "w-unsigned-key", "w-member-epoch", "d-exec-setup", "d-shadow-joiner", "d-below-old-thr", "d-joiner-key-swap", "d-joiner-key-swap", "d-timeout-abandon", "d-concurrent", "d-concurrent", "d-concurrent", "d-near-miss-address", "d-stale-first-epoch", "d-stale-first-epoch", "d-duplicate-member-address", "d-redelivery", "d-boundary-shift"} {
 			add(wk, 1)
 		}
 		nGen, nFab, nKy, nSleep := 24, 44, 5, 4
